@@ -122,7 +122,7 @@ def scan_assumptions(g):
         out.append('axiom fn ' + m.group(1))
     return out
 
-def run_unit(repo, spec_path, workdir, rlimit=None, timeout=900, with_canary=True):
+def run_unit(repo, spec_path, workdir, rlimit=None, timeout=900, with_canary=True, smt_seed=None):
     t0 = time.time()
     name = os.path.splitext(os.path.basename(spec_path))[0]
     res = UnitResult(name)
@@ -140,6 +140,13 @@ def run_unit(repo, spec_path, workdir, rlimit=None, timeout=900, with_canary=Tru
     res.degraded = [l for f in g.functions for l in f.get('lost_splices', [])]
     res.rule_log = g.rule_log
     res.assumptions = scan_assumptions(g)
+    # contracts imported from another unit are not unchecked assumptions: say where they are verified
+    for f in g.functions:
+        if f.get('stub'):
+            tag = 'external_body: ' + f['name']
+            if tag in res.assumptions:
+                res.assumptions.remove(tag)
+            res.assumptions.append('contract of %s imported from unit %s (its body is verified there; the check runs that unit too)' % (f['name'], f.get('from_unit')))
     res.generated = g
     os.makedirs(workdir, exist_ok=True)
     path = os.path.join(workdir, name + '.rs')
@@ -147,6 +154,8 @@ def run_unit(repo, spec_path, workdir, rlimit=None, timeout=900, with_canary=Tru
     res.gen_path = path
     extra = ['--rlimit', str(rlimit)] if rlimit else []
     extra += list(g.unit.verus_flags)
+    if smt_seed is not None:
+        extra += ['--smt-option', 'smt.random_seed=%d' % smt_seed, '--smt-option', 'sat.random_seed=%d' % smt_seed]
     for fl in g.unit.verus_flags:
         res.assumptions.append('verus flag %s%s' % (fl, ' (ghost/proof code is not lifetime-checked; exec code is unaffected)' if fl == '--no-lifetime' else ''))
     results = {}
